@@ -90,8 +90,8 @@ func runC04(c *Ctx) {
 	// ---------- R04.3
 	c.Rule("R04.3", "E1", "expected-phase guard (on the value just read) precedes mutator, no-op exit and write", 1)
 
-	phaseOK := FactEdge("nil(*var:options.ExpectedPhase)",
-		"eq(**var:options.ExpectedPhase,call:(pkg/resource.Metadata).Phase(*call:(pkg/resource.Resource).Metadata("+dCurrent+")))")
+	phaseOK := FactEdge("nil(*var:pkg/state.UpdateOptions.ExpectedPhase)",
+		"eq(**var:pkg/state.UpdateOptions.ExpectedPhase,call:(pkg/resource.Metadata).Phase(*call:(pkg/resource.Resource).Metadata("+dCurrent+")))")
 	c.MustCut("R04.3", "mutator / resource.Equal / Update ⊣ {ExpectedPhase==nil, phase(current)==*ExpectedPhase}", f,
 		OrInstr(p.CallTo("dyn:param#3", "pkg/resource.Equal", gUpdate)), CutSpec{Edges: phaseOK}, 3)
 
@@ -116,7 +116,7 @@ func runC04(c *Ctx) {
 
 		if okC {
 			elems, lit := VarargElems(CallArgs(cr[0])[3])
-			okC = lit && len(elems) == 1 && Glob("call:pkg/state.WithCreateOwner(*var:opts.Owner)", p.Desc(elems[0]))
+			okC = lit && len(elems) == 1 && Glob("call:pkg/state.WithCreateOwner(*var:pkg/state.UpdateOptions.Owner)", p.Desc(elems[0]))
 		}
 
 		c.Check(okC, "R04.4", FuncName(m)+" :: Create(emptyResource, WithCreateOwner(opts.Owner))", fpos(m), "yes", "Create is not called with the caller's owner on the caller's object")
@@ -126,7 +126,7 @@ func runC04(c *Ctx) {
 
 		if okU {
 			elems, lit := VarargElems(CallArgs(uw[0])[4])
-			okU = lit && len(elems) == 1 && Glob("call:pkg/state.WithUpdateOptions(*var:opts)", p.Desc(elems[0]))
+			okU = lit && len(elems) == 1 && Glob("call:pkg/state.WithUpdateOptions(*var:pkg/state.UpdateOptions)", p.Desc(elems[0]))
 		}
 
 		c.Check(okU, "R04.4", FuncName(m)+" :: UpdateWithConflicts(emptyResource.Metadata(), updateFunc, WithUpdateOptions(opts))", fpos(m), "yes", "UpdateWithConflicts not called with the caller's target/mutator/options")
@@ -225,8 +225,9 @@ func runC04(c *Ctx) {
 		okE := true
 
 		for _, in := range Find(f, ReturnsNonNil(1)) {
-			d := p.Desc(in.(*ssa.Return).Results[1])
-			if !(Glob("call:"+gGet+"(*)#1", d) || Glob(upd, d) || Glob("call:pkg/state.errPhaseConflict(*", d) || Glob("call:dyn:param#3(*", d)) {
+			rv := in.(*ssa.Return).Results[1]
+			d := p.Desc(rv)
+			if !(Glob("call:"+gGet+"(*)#1", d) || Glob(upd, d) || Glob("call:pkg/state.errPhaseConflict(*", d) || p.IsDynType(rv, "pkg/state.ePhaseConflict") || Glob("call:dyn:param#3(*", d)) {
 				okE = false
 			}
 		}
